@@ -8,8 +8,8 @@ import time
 from . import c20, core, report
 
 PARAMS = {
-    'quick': dict(sessions=36_000, extended=3_000, chunk=400),
-    'thorough': dict(sessions=700_000, extended=40_000, chunk=2500),
+    'quick': dict(sessions=36_000, extended=3_000, chunk=400, fresh=0.002),
+    'thorough': dict(sessions=700_000, extended=40_000, chunk=2500, fresh=0.01),
 }
 
 REAL = ["everything in the package: ElectionProfile, Election (constructor, count, report/dump/json), all rules, "
@@ -34,8 +34,8 @@ RULE_TEXT = ("random-history arm: seeded sessions of 1-6 predecessor operations 
 def _work(task):
     kind = task[0]
     if kind == 'sess':
-        _, R, seed, first, count, ext = task
-        return c20.work_sessions(R, seed, first, count, ext)
+        _, R, seed, first, count, ext, fresh = task
+        return c20.work_sessions(R, seed, first, count, ext, fresh)
     _, R, tier, ti = task
     return c20.work_grid(R, tier, ti)
 
@@ -54,16 +54,17 @@ def run(R, tier, seed):
             tasks.append(('grid', R, tier, ti))
             arm.append('grid')
     for first in range(0, P['sessions'], P['chunk']):
-        tasks.append(('sess', R, seed, first, min(P['chunk'], P['sessions'] - first), False))
+        tasks.append(('sess', R, seed, first, min(P['chunk'], P['sessions'] - first), False, P['fresh']))
         arm.append('random')
     for first in range(0, P['extended'], P['chunk']):
-        tasks.append(('sess', R, seed, first, min(P['chunk'], P['extended'] - first), True))
+        tasks.append(('sess', R, seed, first, min(P['chunk'], P['extended'] - first), True, 0.0))
         arm.append('extended')
     results = core.fork_map(_work, tasks, timeout=3600.0, what='C20 chunk')
 
     total = c20.new_acc()
     per_arm = {}
     digest = []
+    stub_dis = []
     for a, r in zip(arm, results):
         pa = per_arm.setdefault(a, dict(sessions=0, divergences=0))
         pa['sessions'] += r['sessions']
@@ -77,11 +78,15 @@ def run(R, tier, seed):
         total['viol'].extend(r['viol'])
         total['notes'].extend(r['notes'])
         digest.append(core.digest(r['digest']))
+        stub_dis.extend(r.get('stub_disagreements', []))
         if r['samples'] and len(total['samples']) < 3 and a != 'grid':
             total['samples'].extend(r['samples'][:1])
     if not total['samples']:
         total['samples'].append(dict(grid_pair=dict(predecessor=G[0], target=G[1], profile=c20.GRID_TEXTS[0])))
 
+    if stub_dis:
+        raise core.HarnessError("a fork from the zygote and a fresh interpreter disagree on %d targets run alone, "
+                                "e.g. %s" % (len(stub_dis), json.dumps(stub_dis[0])[:400]))
     notes = []
     seen_notes = set()
     for v in total['notes']:
